@@ -227,7 +227,18 @@ def cases(rng, tier, shard, nshards):
             if len(pts) < 6:
                 pts = gen.large_int_curve(rng, n=12)
         n = len(pts)
-        knees = gen.knee_subset(rng, n, kmin=2, kmax=12)
+        tie = None
+        if lay is None and rng.random() < 0.04:
+            # an even, non-dyadic grid (x = 0.1*i, i/3, ...) with evenly spaced knees and t equal to one normalised gap as the
+            # linkage computes it: every decision is an exact tie, so the clusters depend on the very float values handed over
+            n = int(rng.integers(14, 60))
+            step = float(pick(rng, [0.1, 1.0 / 3.0, 0.7, 0.05, 1e-3]))
+            pts = np.ascontiguousarray(np.column_stack((np.arange(n) * step + float(pick(rng, [0.0, 0.0, 0.3, 10.1])), pts[:1, 1][0] + np.sort(rng.random(n))[::-1] * 5.0)))
+            meta = {'family': 'decimal-grid'}
+            g = int(rng.integers(1, 4))
+            k0 = int(rng.integers(1, 4))
+            tie = np.arange(k0, n - 1, g)[:int(rng.integers(3, 9))]
+        knees = gen.knee_subset(rng, n, kmin=2, kmax=12) if tie is None or len(tie) < 3 else tie
         if rng.random() < 0.4 and n > 12:     # tight groups so that multi-member clusters are common
             start = int(rng.integers(1, n - 8))
             knees = np.unique(np.concatenate((knees, np.arange(start, min(start + int(rng.integers(2, 6)), n - 1)))))
@@ -235,6 +246,11 @@ def cases(rng, tier, shard, nshards):
              'linkage': pick(rng, LINKAGES),
              't': float(10.0 ** rng.uniform(-2.5, 0)) if rng.random() < 0.92 else float(pick(rng, [1.0, 0.5, 0.25, 1.5, 2.0])),
              'mode': pick(rng, MODES + ['corners'])}
+        if tie is not None and len(tie) >= 3:
+            kx = np.asarray(pts[knees.astype(int), 0], dtype=float)
+            j = int(rng.integers(1, len(kx)))
+            c['t'] = float(abs(kx[j] - kx[j - 1]) / (kx[-1] - kx[0])) * float(pick(rng, [1.0, 1.0, 1.0, 2.0]))
+            c['layout'] = 'C'
         if lay == 'i64' and c['mode'] == 'hull':
             c['mode'] = 'linear'      # the hull predicate wraps in int64 at this magnitude: known finding F-2 (C20)
         if lay is None and rng.random() < 0.3:      # history: another ranking mode / linkage / knee subset on the SAME array
